@@ -43,7 +43,41 @@ def u64Ok (c : Bytes) : Bool :=
     else if b0 = 0 && (match rest with | b1 :: _ => decide (b1 < 128) | [] => false) then false
     else (if b0 = 0 then rest.length else c.length) ≤ 8
 
-/-- one extension of an identity certificate: criticality ignored, unknown extensions ignored -/
+/-- the value of one extension of an identity certificate (decoded in DER mode from the octets of the
+extension value); unknown extensions ignored -/
+def idExtValue (e : IdExts) (id v : Bytes) : Option IdExts :=
+  if id = oidBasicConstraints then
+    if e.basicCa.isSome then none
+    else match takeCons tagSeq v with
+      | none => none
+      | some (bc, _) =>
+        let ca : Option (Bool × Bytes) := match takeOptBool bc with
+          | .bad => none | .absent => some (false, bc) | .ok x r => some (x, r)
+        match ca with
+        | none => none
+        | some (x, r) =>
+          -- `take_opt_u64` (pathLenConstraint is tolerated), then the SEQUENCE must end
+          match takeOptPrim tagInt r with
+          | .bad => none
+          | .absent => if r = [] then some { e with basicCa := some x } else none
+          | .ok ic r' => if u64Ok ic ∧ r' = [] then some { e with basicCa := some x } else none
+  else if id = oidSubjectKeyId then
+    if e.ski.isSome then none
+    else match takePrim tagOctetString v with
+      | some (k, _) => if keyIdOk k then some { e with ski := some k } else none
+      | none => none
+  else if id = oidAuthorityKeyId then
+    -- no duplicate check; an absent keyIdentifier resets the value; the other fields are skipped
+    match takeCons tagSeq v with
+    | none => none
+    | some (ac, _) =>
+      match takeOptPrim 0x80 ac with
+      | .bad => none
+      | .absent => if skipAll ac.length ac then some { e with aki := none } else none
+      | .ok k r => if keyIdOk k ∧ skipAll r.length r then some { e with aki := some k } else none
+  else some e
+
+/-- one extension of an identity certificate: criticality ignored -/
 def idExtension (e : IdExts) (c : Bytes) : Option IdExts :=
   match takeOid c with
   | none => none
@@ -55,38 +89,7 @@ def idExtension (e : IdExts) (c : Bytes) : Option IdExts :=
     | some r1 =>
       match takePrim tagOctetString r1 with
       | none => none
-      | some (v, r2) =>
-        if r2 ≠ [] then none
-        else if id = oidBasicConstraints then
-          if e.basicCa.isSome then none
-          else match takeCons tagSeq v with
-            | none => none
-            | some (bc, _) =>
-              let ca : Option (Bool × Bytes) := match takeOptBool bc with
-                | .bad => none | .absent => some (false, bc) | .ok x r => some (x, r)
-              match ca with
-              | none => none
-              | some (x, r) =>
-                -- `take_opt_u64` (pathLenConstraint is tolerated), then the SEQUENCE must end
-                match takeOptPrim tagInt r with
-                | .bad => none
-                | .absent => if r = [] then some { e with basicCa := some x } else none
-                | .ok ic r' => if u64Ok ic ∧ r' = [] then some { e with basicCa := some x } else none
-        else if id = oidSubjectKeyId then
-          if e.ski.isSome then none
-          else match takePrim tagOctetString v with
-            | some (k, _) => if keyIdOk k then some { e with ski := some k } else none
-            | none => none
-        else if id = oidAuthorityKeyId then
-          -- no duplicate check; an absent keyIdentifier resets the value; the other fields are skipped
-          match takeCons tagSeq v with
-          | none => none
-          | some (ac, _) =>
-            match takeOptPrim 0x80 ac with
-            | .bad => none
-            | .absent => if skipAll ac.length ac then some { e with aki := none } else none
-            | .ok k r => if keyIdOk k ∧ skipAll r.length r then some { e with aki := some k } else none
-        else some e
+      | some (v, r2) => if r2 ≠ [] then none else idExtValue e id v
 
 /-- `TbsIdCert::from_constructed` on the captured TBS octets -/
 def decodeTbsId (raw : Bytes) (signature : Bytes) : Option IdCertD :=
